@@ -138,6 +138,12 @@ def assert_entries():
             return [x]
         ents.append(Entry("fxp_assert_%s_Ff" % nm, fn2, ("x",), ref=(lambda k, f=f: f(k.v("x"), int(1.5 * (1 << k.r)))),
                           tags={"fxp", "assert"}))
+        def fn2i(k, nm=nm):
+            x = k.F("x")
+            getattr(x, "assert_" + nm)(-2)
+            return [x]
+        ents.append(Entry("fxp_assert_%s_Fi" % nm, fn2i, ("x",), ref=(lambda k, f=f: f(k.v("x"), -2 * (1 << k.r))),
+                          tags={"fxp", "assert"}))
     for nm, f in rels:
         def fn3(k, nm=nm):
             x = k.F("x"); b = k.B("y")
